@@ -90,8 +90,8 @@ __CPROVER_assigns(q->_events, g_tickets, g_cons, g_sig_next, g_exits, g_last_pol
 __CPROVER_ensures(g_exits == 1)
 ;
 //@loop EQ_consume_until_empty 1
-//@  __CPROVER_assigns(@l1@, self->_events, g_tickets, g_cons, g_sig_next, g_exits, g_last_poll_empty, g_reset)
-//@  __CPROVER_loop_invariant(@l1@ <= self->_events && G_INV && g_exits == 0)
+//@  __CPROVER_assigns(@l1:events@, self->_events, g_tickets, g_cons, g_sig_next, g_exits, g_last_poll_empty, g_reset)
+//@  __CPROVER_loop_invariant(@l1:events@ <= self->_events && G_INV && g_exits == 0)
 //@end
 
 /* start_consumer(): returns 0 only after an accepted launch; returns -1 only after it reset the counter to zero */
@@ -104,7 +104,7 @@ __CPROVER_ensures(__CPROVER_return_value == 0 ==> g_launched == 1)
 __CPROVER_ensures(__CPROVER_return_value == -1 ==> (g_launched == 0 && g_reset))
 ;
 //@loop EQ_start_consumer 1
-//@  __CPROVER_assigns(@l1@, self->_events, g_tickets, g_sig_next, g_launched, g_submit_ret, g_reset)
+//@  __CPROVER_assigns(@l1:events@, self->_events, g_tickets, g_sig_next, g_launched, g_submit_ret, g_reset)
 //@  __CPROVER_loop_invariant(g_launched == 0 && G_INV && !g_reset)
 //@end
 
